@@ -85,6 +85,10 @@ CHECKS = {
    technique="stateless schedule exploration (preemption-bounded DFS) of the real engine built with -race, the scheduler's hand-offs hidden from the detector so that it acts as a per-schedule happens-before oracle; serialisability oracle on the verdicts",
    text="Five scenarios (two requests through one flow; a request racing another transaction's response on a concurrency quota; a request racing the quota metrics observation; a response racing the quota GC pass; policy mode: transaction look-ups racing a reload and the vacuum loops) are explored under all schedules with <=2 preemptions (3 thorough, execution cap reported). A violation is any happens-before race whose two accesses are in repository functions in any explored schedule (keyed by the function pair), a verdict multiset that no one-at-a-time order produces, or a crashed worker.",
    note="Go race detector (HB, not a weak-memory simulator); reports whose racing access is in harness code are ignored; scenario set-up runs with synchronisation visible so goroutine creation orders it; scheduling decisions at sync operations of lunar/engine/streams, lunar/engine/config, toolkit-core/vacuum"),
+ "C08": dict(level="fault_enumeration", engine="faultx+schedx", design="§3 C08",
+   technique="exhaustive single-fault enumeration (every file-system call and every admin-API call of the real update handlers failed in turn) over payloads x endpoints x initial disk states, plus stateless schedule exploration (preemption-bounded DFS) of probe transactions against a running update",
+   text="The real handleConfiguration / handleApplyFlows handlers of a real HandlingDataManager are driven in-process. For 2 initial disk states x 14 payloads (valid, undecodable, failing validation, adding/changing/removing files in every section) x 2 endpoints, a fault-free run numbers the os calls of config/gateway_file_system.go (routed through a fault shim) and the HAProxy admin-API calls; every one of them is then failed in turn (a failed write leaves half the content). Oracle: a non-2xx answer leaves the directory tree byte-identical and the verdicts of 6 probe transactions unchanged; a 2xx answer makes the serving engine agree with a fresh engine built from the files on disk; the serving engine never panics or disappears. Schedules: two probe transactions against one running update (3 payloads x 2 endpoints), all interleavings at sync operations with <=1 preemption (2 thorough): each probe verdict is the old or the new configuration's, never an empty or partial engine's.",
+   note="single faults only (a second fault inside the rollback cannot be survived by an in-place rollback); faults at the os calls of gateway_file_system.go (filepath.Walk and the readers of streams.NewStream use the real file system); admin API = in-process RoundTripper; transactions read the engine pointer exactly like routing.processRequest; refused payload in the schedule scenarios fails at YAML parsing so that Go map order does not change the schedule tree; known finding: a fault inside Restore itself"),
 }
 NA_REASON = "check not built yet in this round (work in progress; planned per DESIGN.md §3)"
 def main():
@@ -115,6 +119,7 @@ def main():
         },
         "engines": [
             {"name": "seqx", "path": "harness/mc/seq.go", "serves_properties": [p for p in CHECKS if CHECKS[p]["engine"].startswith("seqx")], "kind_free_text": "bounded-exhaustive history BFS / product enumeration over the real objects against reference models"},
+            {"name": "faultx", "path": "rt/vos + harness/c08", "serves_properties": [p for p in CHECKS if "faultx" in CHECKS[p]["engine"]], "kind_free_text": "exhaustive enumeration of single injected faults at numbered os / admin-API call sites of the real update path"},
             {"name": "schedx", "path": "rt/ + harness/mc/sched.go", "serves_properties": [p for p in CHECKS if "schedx" in CHECKS[p]["engine"]], "kind_free_text": "stateless schedule exploration (preemption-bounded DFS) of the real code under a synctest-based cooperative scheduler"},
         ],
         "checks": checks,
